@@ -106,6 +106,7 @@ package jsonpatch
 //@   ensures[C05] new-key-appended: err == nil && !old(key in d.obj) ==> (len(d.keys) == old(len(d.keys)) + 1 && d.keys[old(len(d.keys))] == key) || d.keys == old(d.keys)
 //@   ensures[C05] order-kept: forall j int :: 0 <= j && j < old(len(d.keys)) ==> d.keys[j] == old(d.keys[j])
 //@   ensures[C08] attrs: !isTestFailed(err) && !isCopyLimit(err) && !isMissing(err) && !isInvalidIndex(err)
+//@   ensures[C02] keeps-no-null-kids: old(noNullKids()) && (val == nil || kind(val(*val.raw)) != KNull) ==> noNullKids()
 //@   loop 1
 //@   invariant bounds: -1 <= rangeindex && rangeindex < len(d.keys)
 //@   invariant not-found-so-far: forall j int :: 0 <= j && j <= rangeindex ==> d.keys[j] != key
@@ -121,6 +122,7 @@ package jsonpatch
 //@   ensures[C05] existing-key-keeps-position: old(key in d.obj) ==> d.keys == old(d.keys)
 //@   ensures[C05] order-kept: forall j int :: 0 <= j && j < old(len(d.keys)) ==> d.keys[j] == old(d.keys[j])
 //@   ensures[C08] attrs: !isTestFailed(err) && !isCopyLimit(err) && !isMissing(err) && !isInvalidIndex(err)
+//@   ensures[C02] keeps-no-null-kids: old(noNullKids()) && (val == nil || kind(val(*val.raw)) != KNull) ==> noNullKids()
 
 //@ func (*partialDoc).remove
 //@   requires recv: d != nil && options != nil
@@ -135,6 +137,7 @@ package jsonpatch
 //@   ensures[C08] missing: d.obj != nil && err != nil ==> isMissing(err)
 //@   ensures[C08] attrs: !isTestFailed(err) && !isCopyLimit(err) && !isInvalidIndex(err)
 //@   ensures[C05] order: old(key in d.obj) ==> exists ix int :: 0 <= ix && ix < old(len(d.keys)) && old(d.keys[ix]) == key && len(d.keys) == old(len(d.keys)) - 1 && (forall j int :: 0 <= j && j < ix ==> d.keys[j] == old(d.keys[j])) && (forall j int :: ix <= j && j < len(d.keys) ==> d.keys[j] == old(d.keys[j+1]))
+//@   ensures[C02] keeps-no-null-kids: old(noNullKids()) ==> noNullKids()
 //@   loop 1
 //@   invariant bounds: -1 <= rangeindex && rangeindex < len(d.keys)
 //@   invariant not-found-so-far: forall j int :: 0 <= j && j <= rangeindex ==> d.keys[j] != key
@@ -181,6 +184,7 @@ package jsonpatch
 //@   ensures[C01,C06] raw-kept: n.raw == old(n.raw)
 //@   ensures[C02] keeps-no-null-kids: old(noNullKids()) ==> noNullKids()
 
+//@ ginv merge-errors: ErrBadJSONDoc != nil && ErrBadJSONPatch != nil && errBadMergeTypes != nil
 //@ ginv raw-consts: bytes(rawJSONNull) == nullText && rawJSONNull != nil && allocated(rawJSONNull) && allocated(rawJSONArray) && allocated(rawJSONObject) && wf(bytes(rawJSONArray)) && kind(val(bytes(rawJSONArray))) == KArr && jlen(val(bytes(rawJSONArray))) == 0 && nows(bytes(rawJSONArray)) && wf(bytes(rawJSONObject)) && kind(val(bytes(rawJSONObject))) == KObj && jlen(val(bytes(rawJSONObject))) == 0 && nows(bytes(rawJSONObject))
 
 //@ func (*lazyNode).nextByte
@@ -320,6 +324,7 @@ package jsonpatch
 //@   ensures[C01] obj-iff: (err == nil && n.obj != nil) <==> kind(val(data)) == KObj
 //@   ensures[C01] null: kind(val(data)) == KNull ==> err == nil && n.obj == nil
 //@   ensures[C01] other: kind(val(data)) != KNull && kind(val(data)) != KObj ==> err != nil && n.obj == nil
+//@   ensures[C02] keeps-no-null-kids: old(noNullKids()) ==> noNullKids()
 
 //@ func (*partialArray).UnmarshalJSON
 //@   requires recv: n != nil && allocated(n) && n.nodes == nil && wf(data)
@@ -486,26 +491,27 @@ package jsonpatch
 // ---- RFC 7396 merge (C02, C07) ----
 
 //@ func pruneNulls
-//@   requires node: nodeOK(n) && (n.which == eAry ==> n.ary != nil) && (n.which != eAry && n.raw != nil ==> kind(val(*n.raw)) != KNull)
+//@   requires node: n != nil && childOK(n) && kind(val(*n.raw)) != KNull
 //@   requires options: options != nil
 //@   requires tree: noNullKids()
 //@   modifies region(lazyNode.which), region(lazyNode.doc), region(lazyNode.ary), region(partialDoc.obj), region(partialDoc.keys), region(partialDoc.opts), region(partialArray.nodes), region(elem string), region(map map[string]*lazyNode)
 //@   ensures[C02] tree: noNullKids()
 //@   ensures[C02,C04] children-stable: forall c *lazyNode {c.which} :: old(childOK(c)) ==> childOK(c)
-//@   ensures[C02,C04] node-stable: nodeOK(n) && (n.which == eAry ==> n.ary != nil)
+//@   ensures[C02,C04] node-stable: childOK(n) && n.raw == old(n.raw)
+//@   ensures[C02,C05] obj-ptrs: forall d *partialDoc {d.obj} :: old(allocated(d) && d.obj != nil) ==> d.obj == old(d.obj)
 
 //@ func pruneDocNulls
 //@   requires doc: doc != nil && allocated(doc) && options != nil
 //@   requires tree: noNullKids()
 //@   modifies region(lazyNode.which), region(lazyNode.doc), region(lazyNode.ary), region(partialDoc.obj), region(partialDoc.keys), region(partialDoc.opts), region(partialArray.nodes), region(elem string), region(map map[string]*lazyNode)
 //@   ensures[C02] same-doc: result == doc
+//@   ensures[C02,C05] obj-ptrs: forall d *partialDoc {d.obj} :: old(allocated(d) && d.obj != nil) ==> d.obj == old(d.obj)
 //@   ensures[C02] tree: noNullKids()
 //@   ensures[C02,C04] children-stable: forall c *lazyNode {c.which} :: old(childOK(c)) ==> childOK(c)
-//@   ensures[C02] no-null-members: forall k string {doc.obj[k]} :: k in doc.obj ==> doc.obj[k] != nil
 //@   loop 1
 //@   invariant tree: noNullKids()
 //@   invariant children-stable: forall c *lazyNode {c.which} :: old(childOK(c)) ==> childOK(c)
-//@   invariant visited-non-null: forall k string {doc.obj[k]} :: k in doc.obj && visited(k) ==> doc.obj[k] != nil
+//@   invariant obj-ptrs: forall d *partialDoc {d.obj} :: old(allocated(d) && d.obj != nil) ==> d.obj == old(d.obj)
 
 //@ func pruneAryNulls
 //@   requires ary: ary != nil && allocated(ary) && options != nil
@@ -513,15 +519,18 @@ package jsonpatch
 //@   modifies ary.nodes
 //@   ensures[C02,C07] same-array: result == ary
 //@   ensures[C02,C07] arrays-verbatim: len(ary.nodes) == old(len(ary.nodes))
+//@   ensures[C02] tree: noNullKids()
 //@   loop 1
 //@   invariant copied: len(newAry) == rangeindex + 1 && ary.nodes == old(ary.nodes) && newAry != nil && fresh(newAry)
+//@   invariant tree: noNullKids()
 
 //@ func merge
-//@   requires nodes: nodeOK(cur) && nodeOK(patch) && (cur.which == eAry ==> cur.ary != nil) && (patch.which == eAry ==> patch.ary != nil) && options != nil
-//@   requires non-null: (patch.which != eAry && patch.raw != nil ==> kind(val(*patch.raw)) != KNull)
+//@   requires nodes: cur != nil && patch != nil && childOK(cur) && childOK(patch) && options != nil
+//@   requires non-null: kind(val(*patch.raw)) != KNull && kind(val(*cur.raw)) != KNull
 //@   requires tree: noNullKids()
 //@   modifies region(lazyNode.which), region(lazyNode.doc), region(lazyNode.ary), region(partialDoc.obj), region(partialDoc.keys), region(partialDoc.opts), region(partialArray.nodes), region(elem string), region(map map[string]*lazyNode)
 //@   ensures[C02,C07] result: result == cur || result == patch
+//@   ensures[C02,C05] obj-ptrs: forall d *partialDoc {d.obj} :: old(allocated(d) && d.obj != nil) ==> d.obj == old(d.obj)
 //@   ensures[C02] tree: noNullKids()
 //@   ensures[C02,C04] children-stable: forall c *lazyNode {c.which} :: old(childOK(c)) ==> childOK(c)
 //@   ensures[C02,C04] result-ok: nodeOK(result) && (result.which == eAry ==> result.ary != nil) && (result.raw != nil ==> kind(val(*result.raw)) != KNull || result.which == eAry)
@@ -533,10 +542,12 @@ package jsonpatch
 //@   ensures[C02] tree: noNullKids()
 //@   ensures[C02,C04] children-stable: forall c *lazyNode {c.which} :: old(childOK(c)) ==> childOK(c)
 //@   ensures[C02] same-map: doc.obj == old(doc.obj)
+//@   ensures[C02,C05] obj-ptrs: forall d *partialDoc {d.obj} :: old(allocated(d) && d.obj != nil) ==> d.obj == old(d.obj)
 //@   loop 1
 //@   invariant tree: noNullKids()
 //@   invariant children-stable: forall c *lazyNode {c.which} :: old(childOK(c)) ==> childOK(c)
 //@   invariant same-map: doc.obj == old(doc.obj) && patch.obj == old(patch.obj)
+//@   invariant obj-ptrs: forall d *partialDoc {d.obj} :: old(allocated(d) && d.obj != nil) ==> d.obj == old(d.obj)
 
 //@ func isSyntaxError
 //@   modifies nothing
@@ -545,7 +556,6 @@ package jsonpatch
 //@   assume A-merge-entry: noNullKids()
 //@   ensures[C02,C16] rejects-ill-formed-doc: !wf(docData) ==> err != nil && result.0 == nil
 //@   ensures[C02,C16] rejects-ill-formed-patch: !wf(patchData) ==> err != nil && result.0 == nil
-//@   ensures[C02] null-document: wf(docData) && wf(patchData) && kind(val(docData)) == KNull ==> err != nil
 
 // ---- exported wrappers: "every patch that DecodePatch accepts, any non-nil options" ----
 
